@@ -182,30 +182,33 @@ fn render(desc: &CodecDesc, u: &Upd, cs: &[Corr]) -> Vec<u8> {
     }
     let mut trunc = 0usize;
     let mut nlribad: Option<u64> = None;
+    // positional corruptions address the attributes of `u` only (never an appended one)
+    let nbase = attrs.len();
+    let in_base = |i: &usize| if *i < nbase { *i } else { usize::MAX };
     for c in cs {
         match c {
             Corr::Flags(i, f) => {
-                if let Some(a) = attrs.get_mut(*i) {
+                if let Some(a) = attrs.get_mut(in_base(i)) {
                     a.flags = *f
                 }
             }
             Corr::Data(i, d) => {
-                if let Some(a) = attrs.get_mut(*i) {
+                if let Some(a) = attrs.get_mut(in_base(i)) {
                     a.data = d.clone()
                 }
             }
             Corr::LenField(i, l) => {
-                if let Some(a) = attrs.get_mut(*i) {
+                if let Some(a) = attrs.get_mut(in_base(i)) {
                     a.len_override = Some(*l)
                 }
             }
             Corr::Dup(i, d) => {
-                if let Some(a) = attrs.get_mut(*i) {
+                if let Some(a) = attrs.get_mut(in_base(i)) {
                     a.dup = Some(d.clone())
                 }
             }
             Corr::Omit(i) => {
-                if let Some(a) = attrs.get_mut(*i) {
+                if let Some(a) = attrs.get_mut(in_base(i)) {
                     a.present = false
                 }
             }
